@@ -105,6 +105,13 @@ class Ctx:
     def __init__(self, prop, tier, seed, shard=0, nshards=1):
         self.prop, self.tier, self.seed, self.shard, self.nshards = prop, tier, seed, shard, nshards
         self.cache = {}
+        self.markfile = None
+
+    def mark(self, obj):
+        """remember the input being processed, so that a watchdog kill can name it"""
+        if self.markfile:
+            with open(self.markfile, "w") as fh:
+                json.dump(obj, fh, default=str)
 
     def rng(self, i) -> random.Random:
         h = hashlib.sha256(f"{self.seed}:{self.prop}:{i}".encode()).digest()
@@ -128,8 +135,9 @@ def worker_main(argv):
     faulthandler.enable()
     mod = load_prop(prop)
     ctx = Ctx(prop, tier, seed, shard, nshards)
+    ctx.markfile = out + ".mark"
     plan = mod.plan(tier)
-    deadline = time.time() + plan.get("budget_s", 60)
+    deadline = float(os.environ.get("VF_DEADLINE") or (time.time() + plan.get("budget_s", 60)))
     fh = open(out, "a", buffering=1)
     if only != "-":
         idx = [int(only)]
@@ -140,12 +148,14 @@ def worker_main(argv):
             fh.write(f"T {i}\n")
             break
         fh.write(f"B {i}\n")
+        faulthandler.dump_traceback_later(plan.get("stall_s", 60 if tier == "quick" else 240) * 0.8, exit=False)
         t0 = time.process_time()
         try:
             res = mod.run_case(ctx, i, ctx.rng(i))
         except Exception:
             res = Result()
             res.inconclusive.append("harness-exception: " + traceback.format_exc()[-1500:])
+        faulthandler.cancel_dump_traceback_later()
         res.count("cpu_ms", int((time.process_time() - t0) * 1000))
         fh.write(f"E {i} " + json.dumps(res.to_json(), default=str) + "\n")
     fh.write("D\n")
@@ -187,6 +197,7 @@ def run_check(prop: str, tier: str, seed: int) -> int:
     env["PYTHONPATH"] = REPO + os.pathsep + HERE
     env["PYTHONHASHSEED"] = "0"
     env["VERIF_REPO"] = REPO
+    env["VF_DEADLINE"] = str(t_start + plan.get("budget_s", 60))
 
     def spawn(shard, start, only="-"):
         out = os.path.join(work, f"s{shard}.{'all' if only == '-' else 'o' + only}.{start}.log")
@@ -254,25 +265,34 @@ def run_check(prop: str, tier: str, seed: int) -> int:
                     if time.time() < hard_deadline:
                         active.append(spawn(w["shard"], w["open"] + 1))
 
-    # re-run suspects alone, with a generous budget
+    # re-run suspects alone (in parallel batches), each with a generous budget
     inconclusive = []
     hang_viol = []
-    for i, why, errf in suspects:
-        w = spawn(0, 0, only=str(i))
-        try:
-            w["p"].wait(timeout=stall_s * 4)
-        except subprocess.TimeoutExpired:
-            w["p"].kill()
-            w["p"].wait()
-        drain(w)
-        if i not in results:
+    suspects = suspects[:64]
+    for b0 in range(0, len(suspects), 16):
+        batch = [(i, why, spawn(0, 0, only=str(i))) for i, why, _ in suspects[b0:b0 + 16]]
+        t_end = time.time() + stall_s * 2
+        for i, why, w in batch:
+            try:
+                w["p"].wait(timeout=max(1, t_end - time.time()))
+            except subprocess.TimeoutExpired:
+                w["p"].kill()
+                w["p"].wait()
+            drain(w)
+            if i in results:
+                continue
             tail = ""
             try:
                 tail = open(w["out"] + ".err").read()[-1500:]
             except OSError:
                 pass
+            mark = None
+            try:
+                mark = json.load(open(w["out"] + ".mark"))
+            except (OSError, ValueError):
+                pass
             if hasattr(mod, "on_stuck"):
-                hang_viol.append(mod.on_stuck(i, why, tail))
+                hang_viol.append(mod.on_stuck(i, why, tail, mark))
             else:
                 inconclusive.append(f"case {i}: {why}; isolated re-run did not finish: {tail[-300:]}")
 
